@@ -140,7 +140,8 @@ class Printer:
         if pad and self.f.pick('note_pad') in ('padded', 'tabbed') and text.strip():
             # (tabbed: an author who indents with tab characters, also inside a multi-line text)
             extra, last = ('      ', '   ') if self.f.pick('note_pad') == 'padded' else ('\t\t', '\t')
-            body = '\n'.join(extra + ln if ln.strip() else ln for ln in body.split('\n'))
+            # (a blank-only line is padded like the others -- it would otherwise lose its blanks to the normalisation; an empty line stays empty)
+            body = '\n'.join(extra + ln if ln else ln for ln in body.split('\n'))
             body = '\n' + body + '\n' + last
         return "'''%s'''" % body
 
